@@ -30,8 +30,10 @@ VARIABLES l, okind,   \* object kind: "sv" "sov" "avg" "var" "ck" "rm" "rc"
           reg,        \* register / optional cell (0 = empty)
           lastAt,     \* absolute tick of the last stamp (rm, rc)
           th,         \* thread -> [m, arg, depth, nlk, exp, acc]
-          pre         \* thread -> observations of the object just before that thread's in-flight mutating call took effect
-tvars == <<rcvars, ssv, l, okind, reg, lastAt, th, pre>>
+          pre,        \* thread -> observations of the object just before that thread's in-flight mutating call took effect
+          heldmx,     \* thread -> the mutexes (offsets inside the object) it holds, in acquisition order
+          edges       \* observed nesting: <<a, b>> = some thread acquired b while holding a   (spec/LockOrder.tla)
+tvars == <<rcvars, ssv, l, okind, reg, lastAt, th, pre, heldmx, edges>>
 
 Mutators == {"store", "consume", "update", "reset", "evaluate", "timeout", "stamp", "hb"}
 NoObs == [none |-> TRUE]
@@ -49,12 +51,14 @@ AllObsNext == [load |-> reg', getAverage |-> (IF Len(win') = 0 THEN <<TRUE, 0>> 
 TraceInit == /\ RcInitWith("eq", 8, 0, 1000) /\ SS!InitWith(1)
              /\ l = 1 /\ okind = "sv" /\ reg = 0 /\ lastAt = 0
              /\ th = [t \in {0} |-> Idle] /\ pre = [t \in {0} |-> NoObs]
+             /\ heldmx = [t \in {0} |-> <<>>] /\ edges = {}
 IsEvent(e) == l <= Len(Tr) /\ Tr[l].e = e /\ l' = l + 1
 
 TReset ==
   /\ IsEvent("Reset")
   /\ okind' = Tr[l].kind /\ reg' = 0 /\ lastAt' = 0
   /\ th' = [t \in 0..(Tr[l].threads - 1) |-> Idle] /\ pre' = [t \in 0..(Tr[l].threads - 1) |-> NoObs]
+  /\ heldmx' = [t \in 0..(Tr[l].threads - 1) |-> <<>>] /\ edges' = {}
   /\ SS!SetUp(Tr[l].W)
   /\ IF Tr[l].kind \in {"rm", "rc"} THEN RcSetUp(Tr[l].ck, Tr[l].a, Tr[l].b, 1000)
                                     ELSE RmSetUp(4, 1000) /\ SetUp(Tr[l].ck, Tr[l].a, Tr[l].b, "stale")
@@ -66,7 +70,7 @@ TInv ==
      /\ th' = [th EXCEPT ![t] = [m |-> m, arg |-> Tr[l].arg, depth |-> 0, nlk |-> 0, exp |-> 0,
                                   acc |-> IF m \in Mutators THEN {}
                                           ELSE {AllObs[m]} \cup {pre[u][m] : u \in {v \in DOMAIN pre : pre[v] # NoObs}}]]
-  /\ UNCHANGED <<rcvars, ssv, okind, reg, lastAt, pre>>
+  /\ UNCHANGED <<rcvars, ssv, okind, reg, lastAt, pre, heldmx, edges>>
 
 (* the sequential effect of the mutating call of thread t, with its expected return value *)
 Effect(t, exp) ==
@@ -86,6 +90,8 @@ Effect(t, exp) ==
 
 TLock ==
   /\ IsEvent("lock")
+  /\ heldmx' = [heldmx EXCEPT ![Tr[l].t] = Append(@, Tr[l].mx)]
+  /\ edges' = edges \cup {<<heldmx[Tr[l].t][k], Tr[l].mx>> : k \in DOMAIN heldmx[Tr[l].t]}
   /\ LET t == Tr[l].t IN
      /\ th[t].m # "idle"
      /\ IF th[t].m \in Mutators /\ th[t].nlk = 0
@@ -103,8 +109,10 @@ TLock ==
 TUnlock ==
   /\ IsEvent("unlock")
   /\ th[Tr[l].t].depth > 0
+  /\ Len(heldmx[Tr[l].t]) > 0 /\ heldmx[Tr[l].t][Len(heldmx[Tr[l].t])] = Tr[l].mx          \* released in reverse order of acquisition
+  /\ heldmx' = [heldmx EXCEPT ![Tr[l].t] = SubSeq(@, 1, Len(@) - 1)]
   /\ th' = [th EXCEPT ![Tr[l].t].depth = @ - 1]
-  /\ UNCHANGED <<rcvars, ssv, okind, reg, lastAt, pre>>
+  /\ UNCHANGED <<rcvars, ssv, okind, reg, lastAt, pre, edges>>
 
 Abs(x) == IF x < 0 THEN -x ELSE x
 ValueClose(vs, s) == IF s = 0 THEN vs = 0 ELSE vs > 0 /\ Abs(vs - s) <= s \div 100000 + 1
@@ -125,7 +133,11 @@ TRes ==
                  [] c.m = "getReport" -> \E r \in c.acc : ReportMatches(Tr[l], r)
      /\ th' = [th EXCEPT ![t] = Idle]
      /\ pre' = [pre EXCEPT ![t] = NoObs]
-  /\ UNCHANGED <<rcvars, ssv, okind, reg, lastAt>>
+  /\ UNCHANGED <<rcvars, ssv, okind, reg, lastAt, heldmx, edges>>
+
+(* the nesting order of the object's mutexes is consistent across all threads: no potential deadlock (LockOrder!OrderConsistent) *)
+OrderConsistent == /\ \A e \in edges : <<e[2], e[1]>> \notin edges /\ e[1] # e[2]
+                   /\ \A e, f \in edges : e[2] = f[1] => <<f[2], e[1]>> \notin edges
 
 TraceNext == TReset \/ TInv \/ TLock \/ TUnlock \/ TRes
 TraceSpec == TraceInit /\ [][TraceNext]_tvars
